@@ -102,6 +102,14 @@ theorem C16_echo (s : Inst) (rnd rnd' : Bytes) (f : Frame) (tail : Bytes) (h : f
       buildSt rnd' i = .ok (i, rfcEncode f (f.mask.getD rnd)) :=
   echo_lemma s rnd rnd' f tail h
 
+/-- **C16 `text()`.**  What the server sends with `WebsocketFrame.text(data)`
+is, for every payload below 2⁶⁴ bytes, a single final unmasked TEXT frame that
+parses back to exactly `data` and leaves every following byte alone. -/
+theorem C16_text (data tail : Bytes) (h : data.length < 2 ^ 64) :
+    ∃ raw, text data = .ok raw ∧ parse (raw ++ tail) = .ok (textFrame data, tail) := by
+  have := C16_roundtrip [] (textFrame data) tail ⟨by simp [textFrame], h, by simp [textFrame]⟩
+  simpa [text, Frame.norm, textFrame] using this
+
 /-- why `reset()` matters (witness): WITHOUT it the key of an earlier masked
 frame stays visible on a later unmasked one. -/
 theorem C16_no_reset_stale_mask_witness :
